@@ -141,6 +141,9 @@ func (ts *BackgroundTaskManager) InvokeBackgroundTask(do func(context.Context), 
 			select {
 			case <-ch: // some prioritized tasks started; retry it later
 				cancel()
+				// Wait for the cancelled task to return so that it never overlaps
+				// with its own retry and keeps holding the semaphore while it runs.
+				<-done
 				return false
 			case <-done: // All tasks completed
 			}
